@@ -25,6 +25,7 @@ ASSUMPTIONS = [
     "level-1.1 nested sub-structs are located in the D8 shape or by content",
 ]
 BUDGET = {"quick": 120, "thorough": 1500}
+JOBS = {"quick": 4, "thorough": 16}
 
 
 @st.composite
@@ -51,7 +52,7 @@ def cases(draw):
 
 
 def plan(tier):
-    n = 160 if tier == "quick" else 32000
+    n = 480 if tier == "quick" else 32000
     return [{"kind": "hyp", "name": "images", "strategy": cases(), "examples": n}]
 
 
